@@ -8,24 +8,24 @@ Open Scope Z_scope.
 
 (* the get_info clock after the tokens emitted so far equals the tokeniser's loop clock, and the side condition of
    C19_monotone_partial holds for them *)
-Definition J (c : cfg) (s : lstate) : Prop :=
-  clock_ok c (istate0 c) (l_toks s) = true /\
-  info_run c (l_toks s) (istate0 c) = mkis (l_time s) (l_tbar s) (l_total s) (l_rem s).
+Definition J (c : cfg) (pre : list tok) (s : lstate) : Prop :=
+  clock_ok c (istate0 c) (pre ++ l_toks s) = true /\
+  info_run c (pre ++ l_toks s) (istate0 c) = mkis (l_time s) (l_tbar s) (l_total s) (l_rem s).
 
-Lemma J_app : forall c s l s',
-  J c s -> l_toks s' = (l_toks s ++ l)%list ->
+Lemma J_app : forall c pre s l s',
+  J c pre s -> l_toks s' = (l_toks s ++ l)%list ->
   clock_ok c (mkis (l_time s) (l_tbar s) (l_total s) (l_rem s)) l = true ->
   info_run c l (mkis (l_time s) (l_tbar s) (l_total s) (l_rem s)) = mkis (l_time s') (l_tbar s') (l_total s') (l_rem s') ->
-  J c s'.
+  J c pre s'.
 Proof.
-  intros c s l s' [J1 J2] Ht Hc Hr. unfold J. rewrite Ht, clock_ok_app, info_run_app, J1, J2, Hc, Hr. auto.
+  intros c pre s l s' [J1 J2] Ht Hc Hr. unfold J. rewrite Ht, app_assoc, (clock_ok_app c (pre ++ l_toks s) l), (info_run_app c (pre ++ l_toks s) l), J1, J2, Hc, Hr. auto.
 Qed.
 
-Lemma apply_rest_J : forall c fuel s buf s',
+Lemma apply_rest_J : forall c pre fuel s buf s',
   (forall v, In v (c_steps c) -> 0 <= v) ->
-  apply_rest fuel c s buf = Ok s' -> J c s -> J c s'.
+  apply_rest fuel c s buf = Ok s' -> J c pre s -> J c pre s'.
 Proof.
-  intros c fuel s buf s' Hpos. revert fuel s buf s'. destruct (c_steps c) as [|st0 sts] eqn:Hs.
+  intros c pre fuel s buf s' Hpos. revert fuel s buf s'. destruct (c_steps c) as [|st0 sts] eqn:Hs.
   { intros fuel s buf s' H F. destruct (Z_le_gt_dec buf 0) as [Hb|Hb].
     - rewrite apply_rest_eq in H. destruct (buf <=? 0) eqn:E; [inversion H; subst; exact F|apply Z.leb_gt in E; lia].
     - destruct (apply_rest_nosteps c Hs fuel s buf ltac:(lia)) as (e & He). congruence. }
@@ -85,16 +85,16 @@ Proof.
     try (match goal with |- Forall _ (if ?b then _ else _) => destruct b end); repeat constructor.
 Qed.
 
-Lemma tok_event_J : forall c shift s e s',
+Lemma tok_event_J : forall c pre shift s e s',
   DEFAULT_TS_NUM = DEFAULT_TS_DEN -> (forall v, In v (c_steps c) -> 0 <= v) ->
-  tok_event c shift s e = Ok s' -> J c s -> J c s'.
+  tok_event c shift s e = Ok s' -> J c pre s -> J c pre s'.
 Proof.
-  intros c shift s e s' Hts Hpos H F. unfold tok_event in H.
+  intros c pre shift s e s' Hts Hpos H F. unfold tok_event in H.
   set (m := p_first (snd e)) in *.
   destruct (if l_time s =? m_time m + shift then Ok s
             else apply_rest (rest_fuel (m_time m + shift - l_time s)) c s (m_time m + shift - l_time s))
     as [s1|] eqn:E1; cbn [rbind] in H; [|discriminate].
-  assert (F1 : J c s1).
+  assert (F1 : J c pre s1).
   { destruct (l_time s =? m_time m + shift); [inversion E1; subst; exact F|].
     eapply apply_rest_J; [exact Hpos|exact E1|exact F]. }
   clear E1 F. destruct (m_type m) eqn:Em; try (inversion H; subst; exact F1).
@@ -116,39 +116,138 @@ Proof.
     eapply J_app; [exact F1|cbn [l_toks]; reflexivity|exact B|rewrite A; reflexivity].
 Qed.
 
-Lemma foldM_tok_event_J : forall c shift evs s s',
+Lemma foldM_tok_event_J : forall c pre shift evs s s',
   DEFAULT_TS_NUM = DEFAULT_TS_DEN -> (forall v, In v (c_steps c) -> 0 <= v) ->
-  foldM (tok_event c shift) evs s = Ok s' -> J c s -> J c s'.
+  foldM (tok_event c shift) evs s = Ok s' -> J c pre s -> J c pre s'.
 Proof.
-  intros c shift evs; induction evs as [|e evs IH]; intros s s' Hts Hpos H F; cbn [foldM] in H.
+  intros c pre shift evs; induction evs as [|e evs IH]; intros s s' Hts Hpos H F; cbn [foldM] in H.
   - inversion H; subst; exact F.
   - destruct (tok_event c shift s e) as [s1|] eqn:E; cbn [rbind] in H; [|discriminate].
     eapply IH; [exact Hts|exact Hpos|exact H|]. eapply tok_event_J; eauto.
 Qed.
 
-(* whole pipeline, from the fresh tokeniser state *)
-Theorem tokenise_clock : forall c tracks toks st',
+(* second invariant: the loop's bar capacity is the capacity of its current signature *)
+Definition T (c : cfg) (s : lstate) : Prop := l_total s = bar_cap c (l_num s) (l_den s).
+
+Lemma apply_rest_T : forall c fuel s buf s', apply_rest fuel c s buf = Ok s' -> T c s -> T c s'.
+Proof.
+  intros c fuel; induction fuel as [|f IH]; intros s buf s' H F; rewrite apply_rest_eq in H;
+    (destruct (buf <=? 0); [inversion H; subst; exact F|]); [discriminate|].
+  cbv zeta in H.
+  destruct (if last_step c <? Z.min buf (l_rem s) then Some (last_step c) else largest_le (c_steps c) (Z.min buf (l_rem s)))
+    as [v|]; [|discriminate].
+  apply IH in H; [exact H|]. exact F.
+Qed.
+
+Lemma tok_event_T : forall c shift s e s', tok_event c shift s e = Ok s' -> T c s -> T c s'.
+Proof.
+  intros c shift s e s' H F. unfold tok_event in H.
+  set (m := p_first (snd e)) in *.
+  destruct (if l_time s =? m_time m + shift then Ok s
+            else apply_rest (rest_fuel (m_time m + shift - l_time s)) c s (m_time m + shift - l_time s))
+    as [s1|] eqn:E1; cbn [rbind] in H; [|discriminate].
+  assert (F1 : T c s1).
+  { destruct (l_time s =? m_time m + shift); [inversion E1; subst; exact F|]. eapply apply_rest_T; eassumption. }
+  clear E1 F. destruct (m_type m); try (inversion H; subst; exact F1).
+  - destruct (0 <? l_tbar s1); [inversion H; subst; exact F1|].
+    destruct (negb (m_num m * DEFAULT_TS_DEN mod m_den m =? 0)); [discriminate|].
+    destruct (negb ((c_tslo c <=? m_num m * DEFAULT_TS_DEN / m_den m) && (m_num m * DEFAULT_TS_DEN / m_den m <=? c_tshi c)));
+      [discriminate|].
+    inversion H; subst s'. reflexivity.
+  - destruct (nth_error (c_vbins c) (Z.to_nat (bin_velocity (m_vel m) (c_vbins c)))) as [vel|]; [|discriminate].
+    destruct (negb ((c_plo c <=? m_note m) && (m_note m <=? c_phi c))); [discriminate|].
+    destruct (negb (memZ (p_off_time (snd e) - m_time m) (c_values c))); [discriminate|].
+    inversion H; subst s'. exact F1.
+Qed.
+
+Lemma foldM_tok_event_T : forall c shift evs s s', foldM (tok_event c shift) evs s = Ok s' -> T c s -> T c s'.
+Proof.
+  intros c shift evs; induction evs as [|e evs IH]; intros s s' H F; cbn [foldM] in H.
+  - inversion H; subst; exact F.
+  - destruct (tok_event c shift s e) as [s1|] eqn:E; cbn [rbind] in H; [|discriminate].
+    eapply IH; [exact H|]. eapply tok_event_T; eauto.
+Qed.
+
+(* "the tokens emitted so far (pre) and the persistent tokeniser state st are in sync": get_info's clock after pre is
+   the tokeniser's clock, and pre satisfies the side condition of C19_monotone_clock_ok *)
+Definition synced (c : cfg) (pre : list tok) (st : tstate) : Prop :=
+  clock_ok c (istate0 c) pre = true /\
+  info_run c pre (istate0 c) = mkis (t_time st) (t_tbar st) (bar_cap c (t_num st) (t_den st)) (t_rem st).
+
+Lemma synced_init : forall c, synced c [] (tstate0 c).
+Proof. intros c; split; reflexivity. Qed.
+
+(* one tokenise call, from ANY persistent state that is in sync with the tokens emitted before *)
+Theorem tokenise_synced : forall c st tracks toks st' pre,
   DEFAULT_TS_NUM = DEFAULT_TS_DEN -> (forall v, In v (c_steps c) -> 0 <= v) ->
-  tokenise c (tstate0 c) tracks = Ok (toks, st') ->
+  tokenise c st tracks = Ok (toks, st') -> synced c pre st -> synced c (pre ++ toks) st'.
+Proof.
+  intros c st tracks toks st' pre Hts Hpos H [S1 S2]. unfold tokenise in H.
+  destruct (negb (lenZ tracks =? c_ntracks c)); [discriminate|].
+  destruct (tok_frontend tracks) as [evs|]; cbn [rbind] in H; [|discriminate].
+  match type of H with (do s1 <- foldM ?f evs ?x; _) = _ =>
+    set (s0 := x) in H; destruct (foldM f evs s0) as [s1|] eqn:E1 end;
+    cbn [rbind] in H; [|discriminate].
+  assert (F0 : J c pre s0) by (unfold J, s0; cbn [l_toks l_time l_tbar l_total l_rem]; rewrite app_nil_r; auto).
+  assert (T0 : T c s0) by reflexivity.
+  assert (F1 : J c pre s1) by (eapply foldM_tok_event_J; eassumption).
+  assert (T1 : T c s1) by (eapply foldM_tok_event_T; eassumption).
+  destruct (if (((0 <? l_tbar s1) || l_has s1) && (0 <? l_rem s1))%bool
+            then apply_rest (rest_fuel (l_rem s1)) c s1 (l_rem s1) else Ok s1) as [s2|] eqn:E2;
+    cbn [rbind] in H; [|discriminate].
+  assert (F2 : J c pre s2 /\ T c s2).
+  { destruct (((0 <? l_tbar s1) || l_has s1) && (0 <? l_rem s1))%bool; [|inversion E2; subst; auto].
+    split; [eapply apply_rest_J; eassumption|eapply apply_rest_T; eassumption]. }
+  inversion H; subst. destruct F2 as [[A B] C]. split; [exact A|]. rewrite B. unfold T in C.
+  cbn [t_time t_tbar t_num t_den t_rem]. rewrite C. reflexivity.
+Qed.
+
+(* successive tokenise calls with the persistent state threaded through, outputs concatenated *)
+Fixpoint tokenise_many (c : cfg) (st : tstate) (pieces : list (list (list msg))) : result (list tok * tstate) :=
+  match pieces with
+  | [] => Ok ([], st)
+  | p :: ps => do r1 <- tokenise c st p; do r2 <- tokenise_many c (snd r1) ps; Ok ((fst r1 ++ fst r2)%list, snd r2)
+  end.
+
+Lemma tokenise_many_synced : forall c pieces st toks st' pre,
+  DEFAULT_TS_NUM = DEFAULT_TS_DEN -> (forall v, In v (c_steps c) -> 0 <= v) ->
+  tokenise_many c st pieces = Ok (toks, st') -> synced c pre st -> synced c (pre ++ toks) st'.
+Proof.
+  intros c pieces; induction pieces as [|p ps IH]; intros st toks st' pre Hts Hpos H S; cbn [tokenise_many] in H.
+  - inversion H; subst. rewrite app_nil_r. exact S.
+  - destruct (tokenise c st p) as [[t1 st1]|] eqn:E1; cbn [rbind fst snd] in H; [|discriminate].
+    destruct (tokenise_many c st1 ps) as [[t2 st2]|] eqn:E2; cbn [rbind fst snd] in H; [|discriminate].
+    inversion H; subst. rewrite app_assoc. eapply IH; [exact Hts|exact Hpos|exact E2|].
+    eapply tokenise_synced; eassumption.
+Qed.
+
+Lemma tokenise_many_one : forall c st p, tokenise_many c st [p] = (do r <- tokenise c st p; Ok (fst r, snd r)).
+Proof.
+  intros c st p. cbn [tokenise_many]. destruct (tokenise c st p) as [[t1 st1]|]; cbn [rbind fst snd]; [|reflexivity].
+  rewrite app_nil_r. reflexivity.
+Qed.
+
+Theorem tokenise_clock : forall c pieces toks st',
+  DEFAULT_TS_NUM = DEFAULT_TS_DEN -> (forall v, In v (c_steps c) -> 0 <= v) ->
+  tokenise_many c (tstate0 c) pieces = Ok (toks, st') ->
   clock_ok c (istate0 c) toks = true /\
   i_time (info_run c toks (istate0 c)) = t_time st' /\
   i_tbar (info_run c toks (istate0 c)) = t_tbar st' /\
   i_rem (info_run c toks (istate0 c)) = t_rem st'.
 Proof.
-  intros c tracks toks st' Hts Hpos H. unfold tokenise in H.
-  destruct (negb (lenZ tracks =? c_ntracks c)); [discriminate|].
-  destruct (tok_frontend tracks) as [evs|]; cbn [rbind] in H; [|discriminate].
-  match type of H with (do s1 <- foldM ?f evs ?s0; _) = _ => destruct (foldM f evs s0) as [s1|] eqn:E1 end;
-    cbn [rbind] in H; [|discriminate].
-  assert (F1 : J c s1).
-  { eapply foldM_tok_event_J; [exact Hts|exact Hpos|exact E1|]. unfold J, tstate0; cbn. auto. }
-  destruct (if (((0 <? l_tbar s1) || l_has s1) && (0 <? l_rem s1))%bool
-            then apply_rest (rest_fuel (l_rem s1)) c s1 (l_rem s1) else Ok s1) as [s2|] eqn:E2;
-    cbn [rbind] in H; [|discriminate].
-  assert (F2 : J c s2).
-  { destruct (((0 <? l_tbar s1) || l_has s1) && (0 <? l_rem s1))%bool; [|inversion E2; subst; exact F1].
-    eapply apply_rest_J; [exact Hpos|exact E2|exact F1]. }
-  inversion H; subst. destruct F2 as [A B]. split; [exact A|]. rewrite B. cbn. auto.
+  intros c pieces toks st' Hts Hpos H.
+  destruct (tokenise_many_synced c pieces _ _ _ [] Hts Hpos H (synced_init c)) as [A B].
+  cbn [app] in A, B. split; [exact A|]. rewrite B. cbn. auto.
+Qed.
+
+Theorem C19_monotone_many : forall c imp pieces toks st' j k,
+  tokenise_many c (tstate0 c) pieces = Ok (toks, st') -> valid_cfg c = true -> DEFAULT_TS_NUM = DEFAULT_TS_DEN ->
+  (j <= k)%nat -> (k < length toks)%nat ->
+  nth j (f_time (get_info c imp toks)) 0 <= nth k (f_time (get_info c imp toks)) 0.
+Proof.
+  intros c imp pieces toks st' j k H Hv Hts Hjk Hk. destruct (valid_cfg_P c Hv).
+  apply C19_monotone_partial; [|exact Hjk|exact Hk].
+  eapply tokenise_clock; [exact Hts| |exact H]. intros v Hin. apply v_steps_pos in Hin. lia.
 Qed.
 
 Theorem C19_monotone : forall c imp tracks toks st' j k,
@@ -156,21 +255,19 @@ Theorem C19_monotone : forall c imp tracks toks st' j k,
   (j <= k)%nat -> (k < length toks)%nat ->
   nth j (f_time (get_info c imp toks)) 0 <= nth k (f_time (get_info c imp toks)) 0.
 Proof.
-  intros c imp tracks toks st' j k H Hv Hts Hjk Hk. destruct (valid_cfg_P c Hv).
-  apply C19_monotone_partial; [|exact Hjk|exact Hk].
-  eapply tokenise_clock; [exact Hts| |exact H]. intros v Hin. apply v_steps_pos in Hin. lia.
+  intros c imp tracks toks st' j k H. apply (C19_monotone_many c imp [tracks] toks st' j k).
+  rewrite tokenise_many_one, H. reflexivity.
 Qed.
 
-(* the annotations of the last position agree with the tokeniser's final clock; in particular for tokenise output
-   the clock of get_info IS the tokeniser clock *)
-Theorem C19_tokenise_clock : forall c tracks toks st',
-  tokenise c (tstate0 c) tracks = Ok (toks, st') -> valid_cfg c = true -> DEFAULT_TS_NUM = DEFAULT_TS_DEN ->
+(* for tokenise output the clock of get_info IS the tokeniser's clock (time, time in bar, remaining capacity) *)
+Theorem C19_tokenise_clock : forall c pieces toks st',
+  tokenise_many c (tstate0 c) pieces = Ok (toks, st') -> valid_cfg c = true -> DEFAULT_TS_NUM = DEFAULT_TS_DEN ->
   clock_ok c (istate0 c) toks = true /\
   i_time (info_run c toks (istate0 c)) = t_time st' /\
   i_tbar (info_run c toks (istate0 c)) = t_tbar st' /\
   i_rem (info_run c toks (istate0 c)) = t_rem st'.
 Proof.
-  intros c tracks toks st' H Hv Hts. destruct (valid_cfg_P c Hv).
+  intros c pieces toks st' H Hv Hts. destruct (valid_cfg_P c Hv).
   eapply tokenise_clock; [exact Hts| |exact H]. intros v Hin. apply v_steps_pos in Hin. lia.
 Qed.
 
